@@ -174,13 +174,21 @@ class Merger:
                 # Short-circuit the deep merge if a different merge rule
                 # applies to this node.
                 node_coord = NodeCoords(val, rhs, key)
-                merge_mode = (
-                    self.config.hash_merge_mode(node_coord)
-                    if isinstance(val, CommentedMap)
-                    else self.config.set_merge_mode(node_coord)
-                    if isinstance(val, CommentedSet)
-                    else self.config.aoh_merge_mode(node_coord)
-                )
+                merge_mode: Any = None
+                if isinstance(val, CommentedMap):
+                    merge_mode = self.config.hash_merge_mode(node_coord)
+                elif isinstance(val, CommentedSet):
+                    merge_mode = self.config.set_merge_mode(node_coord)
+                elif (isinstance(val, CommentedSeq) and len(val) > 0
+                      and isinstance(val[0], CommentedMap)):
+                    merge_mode = self.config.aoh_merge_mode(node_coord)
+                else:
+                    # Scalars and Arrays of Scalars are not Arrays-of-Hashes:
+                    # only a rule naming this very node short-circuits them.
+                    # pylint: disable=protected-access
+                    node_rule = self.config._get_rule_for(node_coord)
+                    if node_rule:
+                        merge_mode = AoHMergeOpts.from_str(node_rule)
                 self.logger.debug("Merger::_merge_dicts:  Got merge mode, {}."
                                   .format(merge_mode))
                 if merge_mode in (
